@@ -82,6 +82,30 @@ CHECKS.update({
         text="TLC enumerates (a) one field x every ordered list of <=3 distinct validators (Required, Range, MinSize, MaxSize, Email, PhoneNumber, custom lambda, default/custom messages) x every status (at / just inside / just outside each bound, absent, null, mismatched-and-skipped, documented e-mail/phone examples) and (b) classes of <=3 (4) fields from a catalogue of outcome profiles x cap 0..3(4), in flat/nested/array/map/root-array placement; invariants ExceptionIffFailure, ExactlyFailingFields, ExactlyFailingRules, PassingFieldsLoaded, BuiltinSemantics, M refines A hold in every state; each state is replayed on every applicable archive and must yield exactly the prescribed path->messages map, exception and field values.",
         note="Trusted: TLC, harness (public API, real validators), Validation.tla as the statement of the docs. Not prescribed: values of failing fields; XML with cap>0 when two array elements share a path; Email/PhoneNumber outside documented examples; array positions are abstracted as the property allows. Memory input only.",
         design_ref="DESIGN.md#c17"),
+    "C09": dict(
+        category="model_checking",
+        technique="TLA+ (TLC, exhaustive small scope): RFC 4180 as a reader automaton plus the set of all conformant renderings (CsvFormat, A); writer and memory/stream reader machines shaped like the code (CsvMachines, M); M=>A and renderer/automaton consistency checked over all small tables x every rendering; the same module generates tables and texts executed on the real archive; every observation judged by TLC (Trace_Csv)",
+        text="TLC checks exhaustively, for tables up to 3 columns x 1-2 rows over a 10-12 class cell alphabet (empty, plain, separator, quote, CR, LF, CRLF, non-ASCII, blanks, mixtures) x 5 separators x plain and hostile header names: (a) the writer machine's text parsed by the RFC 4180 automaton is exactly the header and cells and a row of a different width is refused; (b) every conformant rendering (optional quoting / LF-CRLF / final break) is loaded by the memory reader and by the chunked stream reader, by name in every column order, with an absent key, and positionally, to exactly the rows; ragged records are rejected. Bound to the code: TLC-generated tables are saved by the real archive to memory and streams in 5 encodings x BOM and TLC decodes and parses the bytes; TLC-generated renderings (exhaustive for small tables, seeded simulation up to 4x9 tables) are loaded through both real readers with 32- and 256-byte decode chunks and compared with the table the text denotes.",
+        note="Bounded: all renderings only for <= 4-6 fields per text; stream-reader chunk mechanics modelled for UTF-8 input; cells are strings here (numbers/dates reach CSV through their text conversion: C04/C14/C16); duplicate header names and malformed texts carry no demand. Trusted: TLC, harness stream doubles.",
+        design_ref="DESIGN.md#c09"),
+    "C14": dict(
+        category="model_checking",
+        technique="TLA+ calendar / ISO-8601 specification on arbitrary-precision integers (BSBigInt); TLC model-checks it (day walk by the successor rule, Parse(Print(x)) = x, BigInt laws against native integers) and evaluates it as oracle: TLC-written expected tables replayed on the real conversions, single instants judged by TLC trace validation",
+        text="TLC exhaustively checks the specification itself (quick 97k / thorough 11.2M states: every day of years -10000..20000 reached by the defining successor rule agrees with the closed forms, their wide-integer versions and the printers/parsers) and then acts as evaluator: for every day of that range x 11 (unit, representation) pairs (thorough), every second of selected days, the limit neighbourhoods of every printable type and seeded random 64-bit counts, the real ToString / To / CBinTimestamp / MsgPack results must equal what the specification prescribes.",
+        note="Trusted: TLC, the harness (logs only), libstdc++ chrono. 32-bit representations for s/min/h/d only; unsigned representations cannot be printed. Duration texts are judged by grammar and denotation, not spelling. Quick tier: boundaries + seeded sample of days.",
+        design_ref="DESIGN.md#c14"),
+    "C15": dict(
+        category="model_checking",
+        technique="TLA+ ISO-8601 grammar specification with exact denotation (BSBigInt); TLC state machine with one action per grammar production generates the texts (path mode), replayed into 30+28 target types x string widths; TLC decides every outcome",
+        text="TLC enumerates every combination of up to 2 (quick) / 3 (thorough) deviations from a valid date-time and 1 / 2 for durations, the calendar product, limit neighbourhoods of all 28 (unit, representation) pairs printed by the spec, all 1-4 digit fractions plus boundary patterns plus seeded 5-9 digit fractions, and single-character mutations; the specification gives the allowed outcome set per (text, target) (value with only sub-second rounding / invalid_argument / out_of_range) and the real parsers must stay inside it.",
+        note="The 10^1..10^9 fractions are not exhaustive (1-4 digits exhaustive + boundary patterns + seeded sample). Rounding ties may go either way; two simultaneous errors may be reported as either exception class. Known findings: see known_findings.json (Dev_AccumulationOrder remainder, Dev_DaysFromCivilEdge remainder, Dev_ComponentwisePrecision, Dev_NegZeroUnsigned, Dev_RangeBeforeSyntax).",
+        design_ref="DESIGN.md#c15"),
+    "C16": dict(
+        category="model_checking",
+        technique="TLA+ literal grammar and exact big-integer IEEE rounding-interval test (Numeric.tla); TLC enumerates all strings over a 12-symbol alphabet, writes the table of all 8/16-bit integers, and judges float bit patterns before and after",
+        text="MC_Numeric explores every text up to 4/5 symbols with grammar invariants; all strings of length <= 5 (quick) / 6 (thorough, 3.26M) are parsed into 11 targets in four string widths and judged by TLC; all 131 584 8/16-bit integers are compared with the TLC-written table; floats/doubles: every exponent x extreme fractions plus seeded patterns: the text must round to the same bits and be shortest.",
+        note="'Shortest' = fewest characters as std::to_chars defines it. The full 2^32 float sweep is not done (seeded sample + all exponent boundaries). The strtod/snprintf fallback configuration is not built.",
+        design_ref="DESIGN.md#c16"),
 })
 
 NOT_YET = {
